@@ -2,6 +2,7 @@ package c09
 
 import (
 	"fmt"
+	"math"
 	"sort"
 
 	"github.com/unixpickle/model3d/model2d"
@@ -27,7 +28,7 @@ type editCase struct {
 
 func genEditCase(t *rapid.T) editCase {
 	c := editCase{Delta: gen.LogF(t, 0.2, 0.55, "delta"), Iters: rapid.IntRange(1, 5).Draw(t, "iters")}
-	c.Editor = rapid.SampledFrom([]string{"mcsearch", "mcsearch-aligned", "mcsearch-aligned", "mcinterior", "searchfilter", "flatten", "elimedges", "dcrepair", "dc", "dcrepair-lattice", "dcrepair-lattice", "mssearch", "decimate"}).Draw(t, "editor")
+	c.Editor = rapid.SampledFrom([]string{"mcsearch", "mcsearch-aligned", "mcsearch-aligned", "mcinterior", "searchfilter", "flatten", "elimedges", "elimedges-ulp", "dcrepair", "dc", "dcrepair-lattice", "dcrepair-lattice", "mssearch", "decimate"}).Draw(t, "editor")
 	switch c.Editor {
 	case "mssearch":
 		c.Tree2 = gen.Node2Gen(t, 2, 4, "tree2")
@@ -99,6 +100,63 @@ func checkEditCase(c editCase, o *kit.Obs) error {
 		m = model3d.MarchingCubesSearch(solid, c.Delta, 1)
 		lim := c.Delta * c.Param * 0.4
 		m = m.EliminateEdges(func(tmp *model3d.Mesh, seg model3d.Segment) bool { return seg[0].Dist(seg[1]) < lim })
+	case "elimedges-ulp":
+		// edges one unit in the last place long (bisection leaves such pairs behind): the midpoint of the collapse
+		// is one of the two endpoints, so the vertex that is removed and the vertex that is created coincide
+		m = model3d.MarchingCubesSearch(solid, c.Delta, 1)
+		ts := m.TriangleSlice()
+		if len(ts) == 0 {
+			return nil
+		}
+		sort.Slice(ts, func(i, j int) bool {
+			for k := 0; k < 3; k++ {
+				if ts[i][k] != ts[j][k] {
+					return coordLess3(ts[i][k], ts[j][k])
+				}
+			}
+			return false
+		})
+		move := map[model3d.Coord3D]model3d.Coord3D{}
+		fixed := map[model3d.Coord3D]bool{}
+		taken := map[model3d.Coord3D]bool{}
+		for _, t := range ts {
+			for _, p := range t {
+				taken[p] = true
+			}
+		}
+		for _, e := range append([]int{7}, c.Edits...) {
+			t := ts[e%len(ts)]
+			a, b := t[e%3], t[(e+1)%3]
+			if _, ok := move[a]; ok || fixed[b] || a == b {
+				continue
+			}
+			if _, ok := move[b]; ok {
+				continue
+			}
+			arr := a.Array()
+			dir := math.Inf(1)
+			if (e/3)%2 == 1 {
+				dir = math.Inf(-1)
+			}
+			arr[(e/6)%3] = math.Nextafter(arr[(e/6)%3], dir)
+			target := model3d.NewCoord3DArray(arr)
+			if taken[target] {
+				continue // two vertices in one place would be a face with a repeated vertex, not a mesh
+			}
+			move[b], fixed[a], taken[target] = target, true, true
+		}
+		m = m.MapCoords(func(p model3d.Coord3D) model3d.Coord3D {
+			if q, ok := move[p]; ok {
+				return q
+			}
+			return p
+		})
+		o.Labelf("ulp-edges:%d", len(move))
+		if m.NeedsRepair() || len(m.SingularVertices()) > 0 {
+			o.Skip("ulp-edge input is not a manifold")
+			return nil
+		}
+		m = m.EliminateEdges(func(tmp *model3d.Mesh, seg model3d.Segment) bool { return seg[0].Dist(seg[1]) < 1e-9*c.Delta })
 	case "decimate":
 		m = model3d.MarchingCubesSearch(solid, c.Delta, 1)
 		m = model3d.DecimateSimple(m, c.Delta*c.Param*0.05)
